@@ -58,30 +58,71 @@ type FeederActor struct {
 
 func (a *FeederActor) OnBlock(e *Env, blk *world.BlockRecord) {}
 
-func (a *FeederActor) nextPrice(e *Env, sig string) uint64 {
+// stepMarket moves the common market price of every current feed once per step. When tunnels exist, moves are aimed at
+// their deviation thresholds (soft-1, soft, hard-1, hard, hard+1 basis points away from the last price they sent).
+func (a *FeederActor) stepMarket(e *Env, feeds []feedstypes.Feed) {
 	if a.price == nil {
 		a.price = map[string]uint64{}
 	}
-	p, ok := a.price[sig]
-	if !ok {
-		p = uint64(1000 + e.Ch.Intn("feeder.price.init", 100000))
+	var ts *TunnelShadow
+	if x, ok := e.Shared["tunnel.shadow"].(*TunnelShadow); ok {
+		ts = x
 	}
-	switch e.Ch.Weighted("feeder.price.move", []int{50, 20, 20, 4, 3, 3}) {
-	case 1:
-		p += uint64(e.Ch.Intn("feeder.price.up", 50))
-	case 2:
-		d := uint64(e.Ch.Intn("feeder.price.down", 50))
-		if d < p {
-			p -= d
+	for _, f := range feeds {
+		sig := f.SignalID
+		p, ok := a.price[sig]
+		if !ok {
+			p = uint64(10000 * (1 + e.Ch.Intn("feeder.price.init", 500)))
+			a.price[sig] = p
+			continue
 		}
-	case 3:
-		return 0
-	case 4:
-		return 1
-	case 5:
-		return ^uint64(0)
+		switch e.Ch.Weighted("feeder.price.move", []int{45, 12, 12, 25, 2, 2, 2}) {
+		case 1:
+			p += uint64(e.Ch.Intn("feeder.price.up", 500))
+		case 2:
+			d := uint64(e.Ch.Intn("feeder.price.down", 500))
+			if d < p {
+				p -= d
+			}
+		case 3:
+			if ts != nil {
+				// aim at a deviation threshold of some tunnel carrying this signal
+				for _, id := range ts.sortedIDs() {
+					t := ts.Tunnels[id]
+					for _, sd := range t.Signals {
+						lp, has := t.Latest[sig]
+						if sd.SignalID != sig || !has || lp.Price == 0 || lp.Price > 1<<50 {
+							continue
+						}
+						targets := []uint64{sd.SoftDeviationBPS, sd.HardDeviationBPS, sd.HardDeviationBPS + 1, sd.SoftDeviationBPS + 1, sd.HardDeviationBPS - 1, sd.SoftDeviationBPS - 1}
+						bps := targets[e.Ch.Intn("feeder.price.aim", len(targets))]
+						delta := (lp.Price*bps + 9999) / 10000
+						if e.Ch.Bool("feeder.price.aimdown", 400) && delta < lp.Price {
+							p = lp.Price - delta
+						} else {
+							p = lp.Price + delta
+						}
+					}
+				}
+			} else {
+				p += p / 100
+			}
+		case 4:
+			p = 0
+		case 5:
+			p = 1
+		case 6:
+			p = ^uint64(0)
+		}
+		a.price[sig] = p
 	}
-	a.price[sig] = p
+}
+
+func (a *FeederActor) nextPrice(e *Env, sig string) uint64 {
+	p := a.price[sig]
+	if e.Ch.Bool("feeder.price.noise", 120) {
+		p += uint64(e.Ch.Intn("feeder.price.noisen", 20))
+	}
 	return p
 }
 
@@ -97,6 +138,7 @@ func (a *FeederActor) Act(e *Env) {
 		a.lastSent = map[string]int64{}
 	}
 	next := e.W.Time.Add(time.Second).Unix()
+	a.stepMarket(e, cf.Feeds)
 	for _, v := range e.W.Vals {
 		key := v.Val.String()
 		byz := !e.Draining && a.ByzP > 0 && e.Ch.Bool("feeder.byz", a.ByzP)
